@@ -4,6 +4,8 @@ import (
 	"fmt"
 
 	"verif/mc"
+
+	"github.com/buildbarn/go-xdr/pkg/protocols/nfsv4"
 )
 
 // probeLocks is the active part of the C20b oracle, run on a throw-away
@@ -154,6 +156,14 @@ func l41free(cl, owner, file, lowner string) letter {
 func l41test(cl string) letter {
 	return letter{name: "41 TEST_STATEID " + cl, enabled: func(w *world) bool { return has41(w, cl) },
 		do: func(w *world, f failer) { w.client41(cl).testStateids(f) }}
+}
+
+// l41sequence: a COMPOUND that does nothing but renew the lease.
+func l41sequence(cl string) letter {
+	return letter{name: "41 SEQUENCE " + cl, enabled: func(w *world) bool { return has41(w, cl) },
+		do: func(w *world, f failer) {
+			w.client41(cl).sequence(f, "SEQUENCE+PUTROOTFH", &nfsv4.NfsArgop4_OP_PUTROOTFH{})
+		}}
 }
 
 func l41destroySession(cl string) letter {
@@ -356,6 +366,19 @@ func seqs41() []*mc.Seq {
 			l41io(ioWrite, "d1", "O1", "a", sidOpen, ""),
 			l41openIOClose("d1", "O2", "a", accBoth),
 			l41test("d1"),
+		}))
+
+	// NFSv4.1 twin of v40-two-files-lease: O1 has two files open, one of
+	// them is closed / downgraded / re-opened, the lease time passes in
+	// steps of lease/2 with a SEQUENCE (which renews the lease) in between.
+	out = append(out, makeSeq("v41-two-files-lease", []string{"C18"}, map[string]int{"quick": 7, "thorough": 9},
+		chain(prefix41Open("d1", "O1", "a", accBoth), prefix41Open("d1", "O1", "b", accRead)), []letter{
+			l41close("d1", "O1", "a"), l41close("d1", "O1", "b"),
+			l41downgrade("d1", "O1", "a", accRead),
+			l41open("d1", "O1", "a", accRead, howNoCreate, claimNull),
+			l41sequence("d1"),
+			l41io(ioRead, "d1", "O1", "b", sidOpen, ""),
+			lAdvance(halfLease, "lease/2"),
 		}))
 	return out
 }
